@@ -403,6 +403,53 @@ func findFunc(f *ast.File, recv, name string) *ast.FuncDecl {
 
 // funcDecl finds a function (recv == "" for plain functions, else receiver type name without *) in the given file or,
 // when it was moved, in another file of the same package; it also sets ctxEnv.
+// withCallees: fd and the functions/methods of its package that it calls, transitively (a tidy-up may move a case body or a loop
+// into a helper; a fact about "the code of f" is a fact about f and what f hands the work to)
+func withCallees(rel string, fd *ast.FuncDecl) []*ast.FuncDecl {
+	if fd == nil {
+		return nil
+	}
+	byName := map[string]*ast.FuncDecl{}
+	for _, file := range pkgFiles(filepath.Dir(rel)) {
+		f := parseQuiet(file)
+		if f == nil {
+			continue
+		}
+		for _, d := range f.Decls {
+			if x, ok := d.(*ast.FuncDecl); ok && x.Body != nil {
+				if _, dup := byName[x.Name.Name]; !dup {
+					byName[x.Name.Name] = x
+				}
+			}
+		}
+	}
+	seen := map[*ast.FuncDecl]bool{fd: true}
+	out := []*ast.FuncDecl{fd}
+	for i := 0; i < len(out) && len(out) < 40; i++ {
+		ast.Inspect(out[i].Body, func(n ast.Node) bool {
+			ce, ok := n.(*ast.CallExpr)
+			if !ok {
+				return true
+			}
+			name := ""
+			switch f := ce.Fun.(type) {
+			case *ast.Ident:
+				name = f.Name
+			case *ast.SelectorExpr:
+				if _, isIdent := f.X.(*ast.Ident); isIdent {
+					name = f.Sel.Name
+				}
+			}
+			if c := byName[name]; c != nil && !seen[c] && !ast.IsExported(name) {
+				seen[c] = true
+				out = append(out, c)
+			}
+			return true
+		})
+	}
+	return out
+}
+
 func funcDecl(rel, recv, name string) *ast.FuncDecl {
 	fd := findFunc(parse(rel), recv, name)
 	if fd == nil {
@@ -556,7 +603,9 @@ func register(g func()) {
 	generators = append(generators, generator{strings.TrimPrefix(n, "main."), g})
 }
 
-func addFP(key, rel, recv, name string) { fingerprints = append(fingerprints, fp{key, rel, recv, name}) }
+func addFP(key, rel, recv, name string) {
+	fingerprints = append(fingerprints, fp{key, rel, recv, name})
+}
 
 // refDir: the generated files of the tree the models were written against (corpus/generated.ref, recorded together
 // with the anchor hashes). When a generator does not RECOGNISE the shape of the source any more (a function was
